@@ -21,8 +21,32 @@ def runs(tier, seed, replay):
 
 CONFIG = {
     "runs": runs,
-    "status": "PARTIAL by design. "
-              "FULL (Coq, Props/C09.v): (1) the iterator every stage relies on - C09_titer: for 1 <= t <= m the model of "
+    "status": "FULL for the plain sampler (Ddnnf::sample_t_wise, every t) and for the fitness-guided sampler (ExtendedDdnnf::sample_t_wise) "
+              "for t <= n; the fitness-guided sampler is REFUTED for t > n (K11); both are REFUTED on models with a repeated child (K36). "
+              "FULL (Coq, Props/C09.v): (0) C09_sample_t_wise_covers - for every WFQ circuit C over n >= 1 features with root_count > 0 in "
+              "which no node lists a child twice (nodup_children), every t, EVERY order oracle that returns permutations (ord_int: "
+              "iteration order of the HashSet of cross interactions per ZippingMerger::merge call; ord_sort: order of equally long samples "
+              "after sort_unstable in merge_all; ord_shuf: the shuffle of literals_to_resample) and EVERY trim choice (trim_pick: which "
+              "configurations trim_and_resample removes - the f64 ranks of calc_stats are abstracted by this oracle, coverage is proved for "
+              "any subset), the executable model of the whole pipeline (Model/TwiseCfg.v, TwiseMerge.v, TwisePipeline.v: Config/Sample as "
+              "data with the cached SAT mark vectors and the complete flag, Sample::from_literal, Empty/Void/ResultWithSample, "
+              "TWiseSampler::sample / partial_sample / sample_node / remove_unneeded, ZippingMerger (zip_samples, generate_(self_)interactions, "
+              "merge, merge_all), SimilarityMerger (candidates, max_by_key with last-maximum ties, is_t_wise_covered_by), cover / "
+              "cover_with_caching / cover_with_caching_twise, trim_and_resample, complete_partial_configs, every SAT call = Query.sat_propagate "
+              "on the configuration's cached state) does not panic and returns ResultWithSample S with twise_ok C n t S = true; "
+              "C09_sample_t_wise_sound_complete: equivalently every configuration is a member of Models C n and every valid interaction of "
+              "min(t,n) literals is contained in some configuration. Invariant per node i (Proofs/TwiseNode.v NodeInv): the partial sample "
+              "consists of well-shaped configurations over vars(i) that are valid at i (count of i under the configuration positive), whose "
+              "cached mark vector is the exact C03 propagation state of a subset (all, if flagged complete) of their literals, and covers "
+              "every valid interaction of min(t,|vars(i)|) literals over vars(i); And: zip keeps every child configuration, the cross "
+              "interactions are exactly the missing ones, each is valid by decomposability (no SAT test needed before a new configuration "
+              "is created); Or: smoothness gives equal variable sets, a candidate is dropped only if all its min(t,len)-subsets are covered. "
+              "C09_shuffle_irrelevant: the thread-RNG shuffle in is_t_wise_covered_by cannot change its answer (not an oracle). "
+              "C09_tints_is_iterator: the interaction lists of the pipeline model are the outputs of the TInteractionIter model. "
+              "REFUTED without nodup_children: C09_sample_t_wise_repeated_child_refuted - on the WFQ circuit [T; L 1; L 2; And [2;1;0;0]] "
+              "the sampler panics for every oracle and every t (remove_unneeded removes the repeated child's sample twice); confirmed on the "
+              "code (c2d file 'nnf 4 4 2 / A 0 / L 1 / L 2 / A 4 0 0 1 2'): finding K36. "
+              "(1) the iterator every stage relies on - C09_titer: for 1 <= t <= m the model of "
               "TIndicesIter::new(m,t) (carry/repair loop, checked Vec accesses, usize subtraction with and without overflow checks) "
               "yields exactly dec_tuples m t 0 then None, no panic; C09_titer_spec + C09_titer_nodup: that list is every strictly "
               "decreasing t-tuple of indices below m, each exactly once; C09_titer_t0 (t = 0: one empty tuple); "
@@ -32,19 +56,32 @@ CONFIG = {
               "(2) the result checker - C09_twise_ok_sound_complete: twise_ok C n t S = true <-> every configuration of S is a member "
               "of Models C n (complete, in feature order, a model) and every valid interaction (min(t,n) literals over distinct features "
               "of 1..n contained in some model, any order) is contained in some configuration of S. "
-              "PARTIAL: the sampling pipeline (~2000 lines: two merger families, hash-set iteration, thread RNG, trimming) is NOT modelled "
-              "step by step. Proved over abstract literal lists with the C03 SAT model as exact oracle: C09_cover_step (+ _root, _subroot: "
-              "a cover_with_caching step keeps every configuration extendable to a model of the (sub-)root, covers an extendable interaction, "
-              "never loses coverage), C09_cached_call_is_fresh (the cached-state SAT call of cover() equals a fresh call on the union), "
-              "C09_complete_root (feature-by-feature completion with SAT checks yields a model containing the partial configuration). "
-              "NOT proved (documented statements only, Proofs/C09Pipeline.v): or-merge, and-zip, trim, their composition, and the whole "
-              "fitness-guided variant. The tie to the code for the pipeline is its POST-CONDITION only: every recorded real run "
-              "(plain via Ddnnf::sample_t_wise, plain and fitness via the stream command) is judged by the extracted twise_ok on the dumped "
-              "circuit and independently by a brute force on the source truth table. Finding K11: the fitness variant does not cover the "
-              "min(t,n)-interactions when t exceeds the number of features",
+              "(3) the abstract steps of the first iteration (C09_cover_step*, C09_cached_call_is_fresh, C09_complete_root) remain. "
+              "FITNESS VARIANT (Model/TwiseFitness.v: AttributeZippingMerger - zip over merge_sorted_configs lists, candidate interactions drawn "
+              "from the LITERAL lists with sizes min(len,k) / min(len,t-k), stable sort by objective value, reversed - AttributeSimilarityMerger, "
+              "cover_with_caching_sorted with its two shifting loops, insert_config_sorted, trim_and_resample, complete_partial_configs_optimal "
+              "= calc_best_config of C20; objective values in Z, averages compared by cross-multiplication): "
+              "C09_sample_t_wise_fitness_covers - WFQ, nodup_children, n >= 1, root_count > 0, EVERY objective vector, every t <= n, every trim "
+              "choice and shuffle => ResultWithSample S with twise_ok C n t S = true (node invariant: coverage of the t-interactions only when "
+              "the node has at least t variables, plus: the sample's literal list contains exactly the leaves over its variables incl. every "
+              "literal valid on its own - the cross interactions come from these lists). "
+              "C09_sample_t_wise_fitness_refuted_t_exceeds_n: for t = 3 > n = 2 on (x1|-x1)&(x2|-x2) the model answers [1 2; -1 -2], "
+              "{1,-2} uncovered = finding K11, now a theorem about the model and reproduced by every recorded run of that class. "
+              "Observation (no effect on the property): ExtendedDdnnf::insert_config_sorted compares the pushed configuration with itself "
+              "(sorted_configs[curr_idx] after the push), its loop never runs - it is a plain push; the model says so and replays exactly. "
+              "CORRESPONDENCE: hook H9 (repo_patches/H9-twise-choice-log.patch) records the order decisions of every plain library run and of "
+              "every fitness run through the stream command (there only the trim decision and the shuffle are not determined by the input) "
+              "(interaction order per merge call, order after sort_unstable, trim decision, shuffled literals); chk_c09 replays them as the "
+              "oracles of the extracted model, which must return exactly the implementation's sample - the same configurations in the same "
+              "order (DIFF twise-replay otherwise; a recorded list that is not a permutation of what the model orders, a missing or left-over "
+              "record: DIFF twise-replay-oracle). The VIOL decision stays with twise_ok + brute force on the source truth table",
     "assumptions": [
-        "the pipeline theorems are about abstract steps (Model/TwiseSteps.v), not about the Rust control flow; no theorem states that sample_t_wise returns a covering sample - each run is checked instead",
-        "each run of the sampler depends on hash-set iteration order and the thread RNG: repeated runs are distinct explorations, not reproductions; a violation is kept as a replay case block (the recorded sample), not as a seed",
+        "C09_sample_t_wise_covers is about the hand-written model Model/Twise*.v; its tie to the Rust is the exact replay of every recorded plain run (hook H9): same sample, same order; without the hook in the ddnnife sources the harness is built against the runs carry 'olog absent' (STAT c09_replay_no_log) and only the post-condition check remains",
+        "oracles of the model: ord_int / ord_sort / ord_shuf must return permutations (hypotheses of the theorem; the replay checks it for every recorded decision); trim_pick is unconstrained - the f64 ranks (unique_coverage / n_decided^t, average) are not modelled, the hook records the decision rank < average",
+        "Config.sat_state / sat_state_complete are modelled by one option (marks, flag): (None, true) is unreachable in the Rust (only set_sat_state sets the flag, and it stores Some); Vec index operations on the literal vector are unchecked nth/upd in the model, the invariant CfgOK keeps all literals in 1..n; debug_assert!s are not modelled (all implied by the invariant; the dev-profile runs execute them)",
+        "nodup_children (no node lists a child twice) is a hypothesis of C09_sample_t_wise_covers: without it the sampler panics (K36); the loaders do not produce repeated children from d4 output, a hand-written c2d file can",
+        "fitness variant: objective values are Z in the model (Model/Optimal.v convention); the correspondence feeds integer-valued f64 of small magnitude, for which sums are exact and the comparison of two averages (an f64 division each) agrees with cross-multiplication; a configuration without decided literal (0/0 = NaN in the Rust) is excluded by the invariant; calc_best_config is the C20 model (Iterator::max = last maximum)",
+        "plain runs through the stream command ('t-wise l t' without f) carry no decision log and are judged by the post-condition only; a violation is kept as a replay case block (the recorded sample and decisions), not as a seed",
         "valid interactions are clamped to min(t,n) literals as the plain sampler does; under the literal reading (exactly t literals) coverage is vacuous for t > n",
         "input space: C01 input space (exhaustive functions over 1..3 features (+ a 1/16 subsample over 4 features, thorough) with 0..2 unmentioned features, random CNFs; d4 and c2d) restricted to n <= 14; t in 1..3 quick / 1..5 thorough, clamped to 3 for n > 8 and to 2 for n > 12; fitness vectors integer-valued with ties and negative values",
         "iterator correspondence needs hook H7 (repo_patches/H7-titer.patch: verif_t_indices / verif_t_interactions); without the hook in the ddnnife sources the harness is built against, the c09iter run records 'hook absent' (STAT c09_titer_hook_absent) and only the theorems and the indirect evidence of the sampler runs remain",
